@@ -81,6 +81,20 @@ def c13(work, tier, seed, replay):
         if not fevs:
             raise Inconclusive("no growth step was observed for the %s feeder" % kind)
     rep.cov["feeder_types_behind_a_front_end_with_transient_failures"] = flaky
+    # (6) "it stops when its context ends", for every feeder type, against a log that asks for patience (429 with Retry-After: 30 on the checkpoint or on
+    # the data endpoints): one cycle under a 1.2 s context in a child process; Trace_Total: the cycle is over within 5 s of the end of its context
+    hs = [{"feeder": f_, "wit": "held", "cp": cp_, "data": d_} for f_ in ("sumdb", "tiles", "pixel", "rekor", "serverless") for cp_, d_ in (("valid", "throttled"), ("throttled", "valid"))]
+    hp, ht = work.path("throttled.jsonl"), work.path("throttled.ndjson")
+    open(hp, "w").write("\n".join(json.dumps(x) for x in hs) + "\n")
+    o, dt = run_driver(["hostile", "-in", hp, "-out", ht, "-seed", str(seed), "-workers", "10"], timeout=3000)
+    rep.notes.append("throttled logs/" + o.strip())
+    hevs = read_ndjson(ht)
+    jr3 = tlc(work, "Trace_Total", cfg_text(spec="JSpec", constants={"TraceFile": ht}, action_constraints=["Monitor"], postcondition="Done"), name="judge-throttled", workers=1, timeout=1800, heap="4g")
+    if not jr3.ok:
+        raise Inconclusive("judge of the throttled cycles failed: %s\n%s" % (jr3.error or jr3.violated, jr3.out[-2000:]))
+    hf = [["FAIL", f["id"], f["name"], f["i"], f["run"], f["k"], f["sig"]] for f in map(json.loads, jr3.prints("FAIL"))]
+    seqfam.settle(rep, "C13", hf, hevs, {})
+    rep.cov["cycles_against_a_log_that_asks_for_patience"] = {"cycles": len(hevs), "max_overrun_ms": max([e.get("overrunms", 0) for e in hevs] or [0])}
     calls = [e for e in events if e["e"] == "feed.call"]
     rep.cov["evaluations"] = len(calls)
     rep.cov["traces_validated_against_impl"] = sum(1 for e in events if e["e"] == "feed.start")
